@@ -4,7 +4,7 @@ patch="$1"; prop="$2"; tier="${3:-quick}"
 cd /repo || exit 2
 git diff --quiet || { echo "repo dirty"; exit 2; }
 git apply "$patch" 2>/dev/null || git apply -3 "$patch" || { echo "PATCH DOES NOT APPLY: $patch"; git checkout -- . ; exit 3; }
-/verif/check "$prop" "$tier" 2>&1 | grep -v '^  ' | tail -8
+GOCV_EVIDENCE_DIR=$(mktemp -d /tmp/mutcheck_ev.XXXXXX) /verif/check "$prop" "$tier" 2>&1 | grep -v '^  ' | tail -8
 rc=$?
 git reset -q --hard HEAD; git clean -fdq 2>/dev/null
 git status --short | head -3
